@@ -7,7 +7,7 @@ generating point set, per-condition means, pair counting); repo code is never as
 
 Clause of the property                                                   oracle
 ----------------------------------------------------------------------  --------------------------------------------
-exact signal + zero noise + no signal channel covariance + n_channel    orc_exact_rdm (tolerance 1e-5 relative to the
+exact signal + zero noise + no signal channel covariance + n_channel    orc_exact_rdm (tolerance 1e-4 relative to the
 >= n_cond + Euclidean-embeddable model RDM  =>  squared-Euclidean RDM   largest target distance; catches every
 by condition (calc_rdm AND a loop re-computation from the raw           structural breakage: scaling, factorisation,
 measurements) = signal * model.predict(theta); for condition vector     assignment of patterns to conditions ...)
@@ -47,7 +47,7 @@ import numpy as np
 
 from vf.rt.harness import oracle, Bounded, replay_file, close  # noqa: F401  (replay_file: used by tools/run_c.py)
 
-TOL_STRUCT = 1e-5      # orc_exact_rdm: far above the 1e-7 imprecision of the unchanged tree, far below any structural error
+TOL_STRUCT = 1e-4      # orc_exact_rdm: unchanged tree reaches up to 1.5e-6 on the thorough domain (finding 1); structural errors are O(1e-2..1)
 TOL_EXACT = 1e-8       # orc_exact_precision: tolerance stated in DESIGN.md section C18
 
 
@@ -504,7 +504,7 @@ def tier_c(run, thorough):
     bds.append(bd)
 
     # ---- exact signal: RDM = signal * model RDM -------------------------------------------------------------------
-    nc_hi, ch_hi, n_seed = (8, 16, 3) if thorough else (6, 12, 1)
+    nc_hi, ch_hi, n_seed = (9, 18, 8) if thorough else (6, 12, 1)
     bd = Bounded(run, 'C18/exact-rdm', 'C18/make_dataset/oracle/exact-signal-rdm-equals-signal-times-model',
                  'n_cond in 2..%d x n_channel in n_cond..%d x %d embeddable point-set kinds x %d seed(s), options drawn by a '
                  'seeded pseudo-random choice per case: design kind (make_design vector / indicator matrix / shuffled / '
@@ -516,10 +516,9 @@ def tier_c(run, thorough):
     def check_rdm(case):
         fn = 'make_signal' if case['n_channel'] == case['n_cond'] else 'make_dataset'
         if case['model'] == 'weighted':
-            # vector-valued theta: calc_rdm of the simulated dataset is a finding of its own (see C18_findings.md); the
-            # numerical claim is still checked on the raw measurements under the ordinary input class
+            # vector-valued theta: calc_rdm of the simulated dataset is a finding of its own (domain C18/exact-rdm-theta-vector
+            # below, C18_findings.md); here the numerical claim is checked on the raw measurements only
             bd.check(orc_exact_rdm, dict(case, via='loops'), _cls(case), function=fn)
-            bd.check(orc_exact_rdm, dict(case, via='calc_rdm'), 'theta-vector', function='make_dataset')
         else:
             bd.check(orc_exact_rdm, case, _cls(case), function=fn)
 
@@ -546,6 +545,22 @@ def tier_c(run, thorough):
                             design=design, model=MODELS[k % len(MODELS)], n_part=2 if design == 'unbalanced' else 1 + k % 3,
                             n_sim=3, signal=SIGNALS[1 + k % (len(SIGNALS) - 1)], same=same, noise_cov='none')
                 check_rdm(case)
+    bd.done()
+    bds.append(bd)
+
+    # ---- calc_rdm of data simulated with a parameter VECTOR (known finding on the unchanged tree) ----------------------
+    bd = Bounded(run, 'C18/exact-rdm-theta-vector', 'C18/make_dataset/oracle/calc-rdm-of-data-simulated-with-vector-theta',
+                 'ModelWeighted with 3 component RDMs and theta = (0.5, 2, 1.25); n_cond in 3..5 x n_channel in {n_cond, 9} x '
+                 'design vector / shuffled; noise=0, exact signal; RDM through calc_rdm only, rel. tol %.0e' % TOL_STRUCT,
+                 function='make_dataset')
+    k = 0
+    for n_cond in range(3, 6):
+        for n_channel in (n_cond, 9):
+            for design in ('vector', 'shuffled'):
+                k += 1
+                bd.check(orc_exact_rdm, dict(seed=7000 + k, n_cond=n_cond, n_channel=n_channel, kind='generic', design=design,
+                                             model='weighted', n_part=2, n_sim=1 + k % 2, signal=2.5, same=False,
+                                             noise_cov='none', via='calc_rdm'), 'theta-vector', function='make_dataset')
     bd.done()
     bds.append(bd)
 
